@@ -1,2 +1,58 @@
+//! C13: autocorrelation, AR fitting and forecasting are consistent.
 use crate::*;
-pub fn run(_r: &mut Rng, _o: &mut Fails) {}
+use compute::timeseries::*;
+use compute::linalg::*;
+
+pub fn run(rng: &mut Rng, out: &mut Fails) {
+    for case in 0..40 {
+        let n = 30 + rng.below(120);
+        let off = match case % 3 { 0 => 0.0, 1 => 1e3, _ => 1e6 };
+        // AR(2)-like series
+        let (p1, p2) = (0.5, -0.3);
+        let mut z = vec![0.0f64, 0.0];
+        for i in 2..n { let e = rng.range(-1., 1.); let v = p1 * z[i - 1] + p2 * z[i - 2] + e; z.push(v); }
+        let ts: Vec<f64> = z.iter().map(|v| v + off).collect();
+        let m = ts.iter().sum::<f64>() / n as f64;
+        let c: Vec<f64> = ts.iter().map(|v| v - m).collect();
+        let inp = format!("AR(2)-like series, n={}, offset={}, seed case {}", n, off, case);
+        let tol = if off == 0. { 1e-10 } else { 1e-6 };
+        let c0: f64 = c.iter().map(|v| v * v).sum::<f64>() / n as f64;
+        for k in [-7i32, -3, -1, 0, 1, 2, 5, 9] {
+            let ka = k.abs() as usize;
+            let want: f64 = (ka..n).map(|i| c[i] * c[i - ka]).sum::<f64>() / n as f64;
+            let g = acovf(&ts, k);
+            if !close(g, want, tol * (1. + c0)) { fail(out, "acovf", "C13.acovf.def", format!("{} k={}", inp, k), format!("{}", g), format!("{}", want)); }
+            if !close(acovf(&ts, -k), g, 1e-12) { fail(out, "acovf", "C13.acovf.even", format!("{} k={}", inp, k), format!("{}", acovf(&ts, -k)), format!("{}", g)); }
+            let a = acf(&ts, k);
+            if !close(a, want / c0, tol) { fail(out, "acf", "C13.acf.ratio", format!("{} k={}", inp, k), format!("{}", a), format!("{}", want / c0)); }
+            if a.abs() > 1. + 1e-12 { fail(out, "acf", "C13.acf.bound", format!("{} k={}", inp, k), format!("{}", a), "|acf| <= 1".into()); }
+        }
+        if !close(acf(&ts, 0), 1., 1e-12) { fail(out, "acf", "C13.acf.lag0", inp.clone(), format!("{}", acf(&ts, 0)), "1".into()); }
+        // differencing inverts cumulative summation
+        let d = difference(ts.clone());
+        let mut acc = ts[0]; let mut okd = d.len() == n - 1;
+        for i in 0..d.len() { acc += d[i]; if !close(acc, ts[i + 1], 1e-9) { okd = false; } }
+        if !okd { fail(out, "difference", "C13.difference", inp.clone(), "cumsum(diff) != series".into(), "inverse of cumulative summation".into()); }
+        // AR fit: Yule-Walker, intercept = mean, refit independence, shift equivariance of forecasts
+        for p in 1..=3usize {
+            let mut ar = AR::new(p); ar.fit(&ts);
+            if !close(ar.intercept, m, 1e-12) { fail(out, "AR::fit", "C13.fit.intercept", format!("{} p={}", inp, p), format!("{}", ar.intercept), format!("{}", m)); }
+            let r: Vec<f64> = (0..=p).map(|k| acf(&ts, k as i32)).collect();
+            // coefficients phi_1..phi_p (coeffs are stored reversed): sum_j phi_j r_|i-j| = r_i
+            let phi: Vec<f64> = ar.coeffs.iter().rev().cloned().collect();
+            for i in 1..=p { let lhs: f64 = (1..=p).map(|j| phi[j - 1] * r[(i as i64 - j as i64).abs() as usize]).sum(); if !close(lhs, r[i], 1e-7) { fail(out, "AR::fit", "C13.fit.yule_walker", format!("{} p={} equation {}", inp, p, i), format!("{}", lhs), format!("{}", r[i])); } }
+            let mut ar2 = AR::new(p); ar2.fit(&z); ar2.fit(&ts);
+            if ar2.coeffs.iter().zip(&ar.coeffs).any(|(a, b)| !close(*a, *b, 1e-9)) { fail(out, "AR::fit", "C13.fit.refit", format!("{} p={} (fit(other) then fit(series))", inp, p), format!("{:?}", ar2.coeffs), format!("{:?}", ar.coeffs)); }
+            let h = 6;
+            let f1 = ar.predict(&ts, h);
+            let shifted: Vec<f64> = ts.iter().map(|v| v + 100.).collect();
+            let mut ars = AR::new(p); ars.fit(&shifted);
+            let f2 = ars.predict(&shifted, h);
+            for i in 0..h { if !close(f2[i], f1[i] + 100., 1e-6) { fail(out, "AR::predict", "C13.predict.centred", format!("{} p={} step {}", inp, p, i), format!("{}", f2[i]), format!("{}", f1[i] + 100.)); break; } }
+            // forecasts = mean + recursion on centred history
+            let mut hist: Vec<f64> = c.clone();
+            for i in 0..h { let mut v = 0.; for j in 1..=p { v += phi[j - 1] * hist[hist.len() - j]; } hist.push(v); if !close(f1[i], m + v, 1e-7 * (1. + m.abs())) { fail(out, "AR::predict", "C13.predict.recursion", format!("{} p={} step {}", inp, p, i), format!("{}", f1[i]), format!("{}", m + v)); break; } }
+        }
+        if out.len() > 6 { return; }
+    }
+}
